@@ -7,7 +7,8 @@
 (*   - prices are integers in "units": one tick = DEN units (DEN is a      *)
 (*     power of two chosen per configuration), so that mid prices and      *)
 (*     dyadic off-grid requests are exact integers;                        *)
-(*   - NoPx = 0 stands for Python's None (market orders have no price);    *)
+(*   - NoPx = -1 stands for Python's None (market orders have no price);   *)
+(*     0 is a real price: a bid below one tick is accepted at 0;           *)
 (*   - ttl = 0 stands for ttl=None (never expires);                        *)
 (*   - an accepted order is the record                                     *)
 (*       [id, ag, buy, mo, px, vol, t0, ttl]                               *)
@@ -17,7 +18,7 @@
 (***************************************************************************)
 EXTENDS Naturals, Integers, Sequences, FiniteSets, SequencesExt, FiniteSetsExt, Functions
 
-NoPx == 0
+NoPx == -1
 
 MkOrder(id, ag, buy, mo, px, vol, t0, ttl) ==
   [id |-> id, ag |-> ag, buy |-> buy, mo |-> mo, px |-> IF mo THEN NoPx ELSE px,
